@@ -364,6 +364,15 @@ pub fn c01(thorough: bool, replay: Option<String>) -> i32 {
     let (st, capped) = par_range(n, 16, cap, || (), |_, st, i| check_c01_case(st, &oplit[i as usize], "OPLIT"));
     rep.add_sub("OPLIT", "every literal of the boundary set and every value-returning operator (on parameters and on constants), quoted data and quoted symbols, in 6 positions (main body, function argument, inline argument, defconst, macro argument, let binding) x 6 sigils x 2 option sets x 3 valuations", n, true, capped, st);
 
+    let mut data: Vec<Case> = vec![];
+    let data_positions: Vec<&str> = if thorough { OPLIT_POSITIONS.to_vec() } else { vec!["main-body", "function-body", "defconst"] };
+    for s in SIGILS {
+        data.extend(lookalike_cases(Some(s), thorough, &data_positions));
+    }
+    let n = data.len() as u64;
+    let (st, capped) = par_range(n, 16, cap, || (), |_, st, i| check_c01_case(st, &data[i as usize], "DATA"));
+    rep.add_sub("DATA", &format!("quoted constants whose payload looks like code: every row, ordered pair of rows (as a list and as a cons){} over {} code-like rows ((5 100) (6 200) (1 . 100) (2 100 200) (4 100 200) (5 1) 7 ...), in {} positions x 6 sigils x 2 option sets x 3 valuations", if thorough { " and triple" } else { "" }, if thorough { 13 } else { 7 }, data_positions.len()), n, true, capped, st);
+
     let mut calls: Vec<Case> = vec![];
     for s in SIGILS {
         calls.extend(calls_cases(Some(s), if thorough { 3 } else { 2 }));
@@ -669,6 +678,7 @@ pub fn c02(thorough: bool, replay: Option<String>) -> i32 {
         }
     }
     cases.extend(calls_cases(None, if thorough { 3 } else { 2 }));
+    cases.extend(lookalike_cases(None, thorough, if thorough { &["main-body", "function-body", "defconst", "inline-argument"] } else { &["main-body"] }));
     for e in kernel_exprs(1) {
         cases.push(kernel_case(&e, 0, None));
         if thorough {
@@ -678,7 +688,7 @@ pub fn c02(thorough: bool, replay: Option<String>) -> i32 {
     }
     let n = cases.len() as u64;
     let (st, capped) = par_range(n, 4, cap, || (), |_, st, i| check_c02_generated(st, &cases[i as usize], "generated"));
-    rep.add_sub("generated", &format!("{} generated programs (binder chains, parameter shapes, operators/literals, call graphs, kernels: a slice of C01's sub-spaces) x 6 sigils x 8 configurations x 2-3 valuations", n), n, true, capped, st);
+    rep.add_sub("generated", &format!("{} generated programs (binder chains, parameter shapes, operators/literals, code-lookalike quoted data, call graphs, kernels: a slice of C01's sub-spaces) x 6 sigils x 8 configurations x 2-3 valuations", n), n, true, capped, st);
 
     // shipped programs
     let shipped = crate::crashmc::shipped_seeds(if thorough { 20000 } else { 2500 }, if thorough { 400 } else { 40 });
